@@ -236,6 +236,17 @@ func shardSeed(seed int64, id string, job, i int) uint64 {
 	return (x >> 1) | 1 // rapid treats 0 as "random"; keep it below 2^63 for readability
 }
 
+// metaFor records everything a replay needs to decode the saved draws exactly as the failing shard did
+// (rapid's Repeat reads -rapid.steps; some jobs read their shard number).
+func metaFor(id string, r *shardResult, fp, tier string, seed int64) map[string]any {
+	checks, steps := r.job.Checks[0], r.job.Steps[0]
+	if tier == "thorough" {
+		checks, steps = r.job.Checks[1], r.job.Steps[1]
+	}
+	return map[string]any{"property": id, "test": r.job.Test, "fingerprint": fp, "rapid_seed": r.seed, "tier": tier,
+		"checks": checks, "steps": steps, "shard": r.idx, "nshards": r.job.shards(tier), "verif_seed": seed}
+}
+
 var failfileRe = regexp.MustCompile(`-rapid\.failfile="([^"]+)"`)
 
 func runShard(b *build, p *Plan, tier string, seed int64, ji int, job Job, i int, sem chan struct{}) *shardResult {
@@ -484,7 +495,7 @@ func run(id, tier string) int {
 			base := fmt.Sprintf("%s-%s-seed%d", r.job.Test, sanitize(fp), r.seed)
 			txt := filepath.Join(repDir, base+".txt")
 			os.WriteFile(txt, r.out, 0o644)
-			meta, _ := json.Marshal(map[string]any{"property": id, "test": r.job.Test, "fingerprint": fp, "rapid_seed": r.seed, "tier": tier})
+			meta, _ := json.Marshal(metaFor(id, r, fp, tier, seed))
 			os.WriteFile(filepath.Join(repDir, base+".meta.json"), meta, 0o644)
 			viols = append(viols, viol{fp, raceExcerpt(r.out), txt})
 			continue
@@ -512,7 +523,7 @@ func run(id, tier string) int {
 						replayPath = ff
 					}
 				}
-				meta, _ := json.Marshal(map[string]any{"property": id, "test": r.job.Test, "fingerprint": v.Fingerprint, "rapid_seed": r.seed, "tier": tier})
+				meta, _ := json.Marshal(metaFor(id, r, v.Fingerprint, tier, seed))
 				os.WriteFile(strings.TrimSuffix(replayPath, filepath.Ext(replayPath))+".meta.json", meta, 0o644)
 				viols = append(viols, viol{v.Fingerprint, v.Message, replayPath})
 			} else {
@@ -720,6 +731,11 @@ func replay(id, path string) int {
 		Fuzz      bool   `json:"fuzz"`
 		RapidSeed uint64 `json:"rapid_seed"`
 		Tier      string `json:"tier"`
+		Checks    int    `json:"checks"`
+		Steps     int    `json:"steps"`
+		Shard     int    `json:"shard"`
+		NShards   int    `json:"nshards"`
+		VerifSeed int64  `json:"verif_seed"`
 	}
 	if mb, err := os.ReadFile(metaPath); err == nil {
 		json.Unmarshal(mb, &meta)
@@ -736,6 +752,17 @@ func replay(id, path string) int {
 	b := doBuild(id+"-replay", race)
 	defer os.RemoveAll(b.dir)
 	env := append(goEnv(), "VERIF_KNOWN="+filepath.Join(verifDir, "known_findings.json"), "VERIF_TIER="+meta.Tier, "VERIF_HARNESS="+harnessDir, "VERIF_REPLAY=1")
+	if meta.NShards > 0 {
+		env = append(env, "VERIF_SHARD="+strconv.Itoa(meta.Shard), "VERIF_NSHARDS="+strconv.Itoa(meta.NShards),
+			"VERIF_SEED="+strconv.FormatInt(meta.VerifSeed, 10), "VERIF_SHARD_SEED="+strconv.FormatUint(meta.RapidSeed, 10))
+	}
+	var rapidArgs []string
+	if meta.Checks > 0 {
+		rapidArgs = append(rapidArgs, "-rapid.checks", strconv.Itoa(meta.Checks))
+	}
+	if meta.Steps > 0 {
+		rapidArgs = append(rapidArgs, "-rapid.steps", strconv.Itoa(meta.Steps))
+	}
 	var out []byte
 	var err error
 	if meta.Fuzz {
@@ -749,9 +776,12 @@ func replay(id, path string) int {
 		out, err = runCmd(harnessDir, env, 10*time.Minute, "go", "test", "-vet=off", "-overlay", b.overlay, "-run", "^"+meta.Test+"$/"+filepath.Base(dst), "./props")
 	} else if strings.HasSuffix(path, ".fail") {
 		abs, _ := filepath.Abs(path)
-		out, err = runCmd(b.dir, env, 10*time.Minute, b.bin, "-test.run", "^"+meta.Test+"$", "-test.v", "-rapid.failfile", abs)
+		// the saved draws first; should they no longer decode to a failure, the shard's own search is repeated
+		args := append([]string{"-test.run", "^" + meta.Test + "$", "-test.v", "-test.timeout", "0", "-rapid.failfile", abs, "-rapid.seed", strconv.FormatUint(meta.RapidSeed, 10)}, rapidArgs...)
+		out, err = runCmd(b.dir, env, 60*time.Minute, b.bin, args...)
 	} else {
-		out, err = runCmd(b.dir, env, 30*time.Minute, b.bin, "-test.run", "^"+meta.Test+"$", "-test.v", "-rapid.seed", strconv.FormatUint(meta.RapidSeed, 10))
+		args := append([]string{"-test.run", "^" + meta.Test + "$", "-test.v", "-test.timeout", "0", "-rapid.seed", strconv.FormatUint(meta.RapidSeed, 10)}, rapidArgs...)
+		out, err = runCmd(b.dir, env, 60*time.Minute, b.bin, args...)
 	}
 	io.Copy(os.Stdout, bytes.NewReader([]byte(tail(out, 20000))))
 	if err != nil {
